@@ -31,6 +31,7 @@ def impl_menu():
         bench.parse('input(a,b) output(y) n=INV1(a) y=AND2(n,b)'),            # two gates
         bench.parse('input(a) output(y,z) y=BUF1(a) z=INV1(y)'),              # output read internally, two outputs
         bench.parse('input(a,b) output(y) y=BUF1(a)'),                        # ignored input
+        bench.parse('input(x,y,z) output(q) t=INV1(x) q=OR2(z,t)'),          # ignored input at a position that the designated cell wires internally
     ]
 
 
@@ -425,38 +426,41 @@ SEEDS = [
 
 
 def tasks(tier, seed):
-    cfg = {'quick': dict(nf=2, nc=2, depth=6, split=3, seed_depth=3), 'thorough': dict(nf=3, nc=3, depth=7, split=3, seed_depth=4)}[tier]
+    cfgs = {'quick': [dict(nf=2, nc=2, depth=6, split=3, seed_depth=3)],
+            'thorough': [dict(nf=2, nc=2, depth=7, split=4, seed_depth=4), dict(nf=3, nc=3, depth=6, split=3, seed_depth=4)]}[tier]
     common.setup_kyupy()
-    sysm = CircuitSystem(cfg['nf'], cfg['nc'])
-    # parent: enumerate all histories up to the split depth (deduplicated on canonical state)
-    frontier = [[]]
-    broken = []
-    seen = {canon(sysm.initial())}
-    for _ in range(cfg['split']):
-        nxt = []
-        for hist in frontier:
-            try:
-                c, m = sysm.initial(), sysm.model_initial()
-                for op in hist: c = apply_only(sysm, c, m, op)
-                ops = sysm.enabled(c)
-            except Exception:
-                broken.append(hist); continue
-            for op in ops:
+    t = []
+    for cfg in cfgs:
+        sysm = CircuitSystem(cfg['nf'], cfg['nc'])
+        # parent: enumerate all histories up to the split depth (deduplicated on canonical state, no checks here)
+        frontier = [[]]
+        broken = []
+        seen = {canon(sysm.initial())}
+        for _ in range(cfg['split']):
+            nxt = []
+            for hist in frontier:
                 try:
                     c, m = sysm.initial(), sysm.model_initial()
-                    for o in hist + [op]: c = apply_only(sysm, c, m, o)
-                    k = canon(c)
+                    for op in hist: c = apply_only(sysm, c, m, op)
+                    ops = sysm.enabled(c)
                 except Exception:
-                    broken.append(hist + [op]); continue
-                if k in seen: continue
-                seen.add(k)
-                nxt.append(hist + [op])
-        frontier = nxt
-    frontier += broken
-    t = [('sub', cfg['nf'], cfg['nc'], cfg['depth'], h) for h in frontier]
-    t.append(('top', cfg['nf'], cfg['nc'], cfg['split']))
+                    broken.append(hist); continue
+                for op in ops:
+                    try:
+                        c, m = sysm.initial(), sysm.model_initial()
+                        for o in hist + [op]: c = apply_only(sysm, c, m, o)
+                        k = canon(c)
+                    except Exception:
+                        broken.append(hist + [op]); continue
+                    if k in seen: continue
+                    seen.add(k)
+                    nxt.append(hist + [op])
+            frontier = nxt
+        frontier += broken
+        t += [('sub', cfg['nf'], cfg['nc'], cfg['depth'], h) for h in frontier]
+        t.append(('top', cfg['nf'], cfg['nc'], cfg['split']))
     for s in SEEDS[: (4 if tier == 'thorough' else 3)]:
-        t.append(('sub', 3, 3, len(s) + cfg['seed_depth'], s))
+        t.append(('sub', 3, 3, len(s) + cfgs[0]['seed_depth'], s))
     return t
 
 
